@@ -10,7 +10,7 @@ CHECKS = {
     ref="DESIGN.md §4 C02, §3.1"),
 }
 _TREE_TECH = "TLA+ reference container (ElementTree.tla: Succ = allowed outcomes of every public mutator) model-checked by TLC; TLC's dumped state graph is replayed on real elements and every recorded step is judged by the TLC trace specification ElementTreeTrace"
-_TREE_NOTE = "Trusted: TLC, the reference semantics in ElementTree.tla, the public-API projection (children, by-name lookup, parent, to_er7, validate). Bounded: 2 parents, <=3 live objects and <=2 children per parent in the replayed graph (quick samples its states, thorough replays all), concretised on Segment PID and Group ADT_A01_INSURANCE, both validation levels."
+_TREE_NOTE = "Trusted: TLC, the reference semantics in ElementTree.tla, the public-API projection (children, by-name lookup, parent, to_er7, validate). Bounded: 2 parents, <=3 live objects and <=2 children per parent in the replayed graph (quick and thorough replay seeded shares of its states), concretised on Segment PID and Group ADT_A01_INSURANCE, both validation levels."
 CHECKS.update({
  "C09": dict(technique=_TREE_TECH, note=_TREE_NOTE, ref="DESIGN.md §4 C09-C12, §3.6",
     text="Every reachable state of the bounded reference model x every operation (set by name/index/position/object, add, insert, delete, pop, remove, copy, re-parent) is executed on real elements along several paths; TLC decides for each recorded step whether the observed successor state and encoding are among those the ordered-list model allows. The model's own laws (order of untouched siblings kept, locality) are checked as TLC action properties."),
